@@ -42,9 +42,12 @@ GRAMS = {
     'g5': "@@whitespace :: /[ ]+/\n\nstart: 'a' 'b' $ ;\n\nother: 'x' ;\n",
     'g6': "start::Prog::Base: 'x' v=val $ ;\n\nval::Item::Other: /[0-9]+/ ;\n",
     'g7': "@@keyword :: (let)\n\nstart: {stmt}+ $ ;\n\nstmt: 'let' n=name | n=name ;\n\n@name\nname: /[a-z]+/ ;\n",
+    # a rule whose value is a bare scalar of varying type and equal value (True / 1 / 1.0): a cache keyed by value would confuse them
+    'g8': "start: {v}* $ ;\n\nv: 'b' @:@bool | 'i' @:@int | 'f' @:@float ;\n",
 }
-TEXTS = ['a b b', 'a', 'x, y', 'x', 'foo if', 'Foo BAR', '1+2+3', '1+', 'a b', 'a\nb', 'x 1', 'A B', 'let q r', 'let let', '', 'x,', 'A']
-STARTS = {'g2': ['item'], 'g4': ['e', 't'], 'g5': ['other'], 'g6': ['val'], 'g7': ['stmt', 'name'], 'g3': ['id']}
+TEXTS = ['a b b', 'a', 'x, y', 'x', 'foo if', 'Foo BAR', '1+2+3', '1+', 'a b', 'a\nb', 'x 1', 'A B', 'let q r', 'let let', '', 'x,', 'A',
+         'i 1 b true f 1.0', 'b true i 1', 'f 1.0 b true i 1', 'i 0 b false f 0.0', 'b false i 0']
+STARTS = {'g2': ['item'], 'g4': ['e', 't'], 'g5': ['other'], 'g6': ['val'], 'g7': ['stmt', 'name'], 'g3': ['id'], 'g8': ['v']}
 
 
 class SemA:
@@ -81,7 +84,9 @@ def canon(x, depth=0):
         return {str(k): canon(v, depth + 1) for k, v in sorted(x.items()) if k not in ('parseinfo', '__parseinfo__')}
     if isinstance(x, (list, tuple)):
         return [canon(v, depth + 1) for v in x]
-    if isinstance(x, (str, int, float, bool)) or x is None:
+    if isinstance(x, (bool, float)):
+        return tu.Typed(x)   # True == 1 == 1.0 in Python: keep the type in the comparison
+    if isinstance(x, (str, int)) or x is None:
         return x
     return repr(type(x).__name__)
 
@@ -268,6 +273,16 @@ def run_history(history):
     return result
 
 
+OWN_TEXTS = {'g8': ['i 1 b true f 1.0', 'b true i 1', 'f 1.0 b true i 1', 'i 0 b false f 0.0', 'b false i 0'],
+             'g4': ['1+2+3', '1+'], 'g7': ['let q r', 'let let'], 'g3': ['foo if', 'Foo BAR'], 'g2': ['x, y', 'x', 'x,']}
+
+
+def pick_text(rnd, g):
+    if g in OWN_TEXTS and rnd.random() < 0.6:
+        return rnd.choice(OWN_TEXTS[g])
+    return rnd.choice(TEXTS)
+
+
 # ------------------------------------------------------------------ generation
 def gen_history(rnd):
     n = rnd.randint(3, 12)
@@ -286,13 +301,13 @@ def gen_history(rnd):
             g = models[var]
             start = rnd.choice(STARTS.get(g, [None]) + [None, None])
             kw = rnd.choice([{}, {}, {'ignorecase': True}, {'parseinfo': True}, {'whitespace': ''}, {'nameguard': False}, {'asmodel': True}, {'trace': False, 'colorize': False}])
-            op = ('mparse', var, rnd.choice(TEXTS), start, kw)
+            op = ('mparse', var, pick_text(rnd, g), start, kw)
         elif c < 0.6 and models:
             var = rnd.choice(list(models))
-            op = ('cparse', var, rnd.choice(TEXTS), rnd.choice([{}, {'ignorecase': True}, {'nameguard': False}, {'parseinfo': True}]))
+            op = ('cparse', var, pick_text(rnd, models[var]), rnd.choice([{}, {'ignorecase': True}, {'nameguard': False}, {'parseinfo': True}]))
         elif c < 0.72:
             g = rnd.choice(list(GRAMS))
-            op = ('parse', g, rnd.choice(TEXTS), rnd.choice(STARTS.get(g, [None]) + [None, None]), rnd.choice([False, False, True]), rnd.choice(['none', 'none', 'A']))
+            op = ('parse', g, pick_text(rnd, g), rnd.choice(STARTS.get(g, [None]) + [None, None]), rnd.choice([False, False, True]), rnd.choice(['none', 'none', 'A']))
         elif c < 0.8:
             var = f'p{step}'
             g = rnd.choice(list(GRAMS))
@@ -301,7 +316,7 @@ def gen_history(rnd):
         elif c < 0.92 and parsers:
             var = rnd.choice(list(parsers))
             g = parsers[var]
-            op = ('gparse', var, rnd.choice(TEXTS), rnd.choice(STARTS.get(g, [None]) + [None, None]), rnd.choice([{}, {}, {'ignorecase': True}, {'parseinfo': True}, {'whitespace': ''}]),
+            op = ('gparse', var, pick_text(rnd, g), rnd.choice(STARTS.get(g, [None]) + [None, None]), rnd.choice([{}, {}, {'ignorecase': True}, {'parseinfo': True}, {'whitespace': ''}, {'asmodel': True}]),
                   rnd.choice(['none', 'none', 'A', 'B']))
         elif c < 0.96:
             op = (rnd.choice(['src', 'pymodel']), rnd.choice(list(GRAMS)), rnd.choice([None, 'N1']))
@@ -329,17 +344,17 @@ def gen_history(rnd):
             sib[-1] = f'm{step}s'
             hist.append(tuple(sib))
             models[sib[-1]] = op[1]
-            hist.append(('mparse', op[-1], rnd.choice(TEXTS), None, {}))
+            hist.append(('mparse', op[-1], pick_text(rnd, op[1]), None, {}))
         # a burst of parses on a freshly created object: reuse after failures, with and without per-call settings
         if op[0] in ('compile', 'gen') and rnd.random() < 0.6:
             var, g = op[-1], op[1]
             for _ in range(rnd.randint(2, 4)):
                 start = rnd.choice(STARTS.get(g, [None]) + [None, None])
                 if op[0] == 'gen':
-                    hist.append(('gparse', var, rnd.choice(TEXTS), start, rnd.choice([{}, {}, {'ignorecase': True}, {'parseinfo': True}, {'whitespace': ''}, {'nameguard': False}]),
+                    hist.append(('gparse', var, pick_text(rnd, g), start, rnd.choice([{}, {}, {'ignorecase': True}, {'parseinfo': True}, {'whitespace': ''}, {'nameguard': False}, {'asmodel': True}, {'asmodel': True}]),
                                  rnd.choice(['none', 'none', 'A', 'B'])))
                 else:
-                    hist.append(('mparse', var, rnd.choice(TEXTS), start, rnd.choice([{}, {}, {'ignorecase': True}, {'parseinfo': True}, {'whitespace': ''}, {'asmodel': True}])))
+                    hist.append(('mparse', var, pick_text(rnd, g), start, rnd.choice([{}, {}, {'ignorecase': True}, {'parseinfo': True}, {'whitespace': ''}, {'asmodel': True}])))
     return hist[:14]
 
 
